@@ -518,6 +518,15 @@ fn multiply_frac(x: u128, frac: Ratio<u128>) -> u128 {
     result.floor().numer().try_into().unwrap_or(u128::MAX)
 }
 
+/// Accessors used only by the external verification harness (`--cfg melstf_verif`); not compiled into normal builds.
+#[cfg(melstf_verif)]
+pub mod verif {
+    /// `multiply_frac(x, n/d)`: the pro-rata helper of the settlement code.
+    pub fn multiply_frac(x: u128, n: u128, d: u128) -> u128 {
+        super::multiply_frac(x, num::rational::Ratio::new(n, d))
+    }
+}
+
 #[cfg(test)]
 mod tests {
 
